@@ -505,13 +505,13 @@ SUBCHECKS = [
     Sub('sample_pairs', execute_sample, enumerate=enum_pairs, quick_shards=8, thorough_shards=16, floor=10),
     Sub('sample_subsets', execute_sample, strategy=strat_subsets, quick=24, thorough=2000, quick_shards=8,
         thorough_shards=16, floor=10),
-    Sub('synth', execute_synth, strategy=strat_synth, quick=1200, thorough=24000, quick_shards=8, thorough_shards=16,
+    Sub('synth', execute_synth, strategy=strat_synth, quick=1000, thorough=24000, quick_shards=8, thorough_shards=16,
         floor=200, must_hit=_VIEW_LABELS + _LAYOUT_LABELS + (
             'lzma', 'lzma:nondefault', 'prelude:nondefault', 'gl_lzma', 'gl_dummy', 'gl_extra', 'has:faces', 'has:water', 'has:vis', 'has:overlays',
             'has:brushes', 'has:phys', 'dprp:type2', 'dprp:type3', 'access:repeat')),
     Sub('container', execute_synth, strategy=strat_container, quick=400, thorough=8000, quick_shards=4,
         thorough_shards=16, floor=5, must_hit=_LAYOUT_LABELS + ('access:none', 'lzma', 'lzma:nondefault', 'gl_lzma', 'has:opaque')),
-    Sub('failing_access', execute_failing, strategy=strat_failing, quick=500, thorough=8000, quick_shards=4,
+    Sub('failing_access', execute_failing, strategy=strat_failing, quick=400, thorough=8000, quick_shards=4,
         thorough_shards=16, floor=100, must_hit=_LAYOUT_LABELS + tuple('corrupt:' + k for k in CORRUPTIONS) + (
             'raised:error', 'raised:ValueError')),
 ]
